@@ -125,7 +125,7 @@ theorem inv_afterEnq {c : Cfg} {s : State} {t j : Nat} {acc : Bool} (h : Inv c s
     simp only [Bool.not_eq_true] at hacc
     subst hacc
     have hex : s.exit = true := h.x_rej_exit t j hpc
-    have hl : s.loc j = Loc.rejected t := (h.l_rej t j).1 hpc
+    have hl : s.loc j = Loc.rejected t := (h.l_rej t j).1 (Or.inl hpc)
     have hc := h.c_once j
     rw [hl] at hc
     simp only [reduceCtorEq, ↓reduceIte] at hc
